@@ -131,3 +131,15 @@ mutant("c06-cmp-cell-reverted", ["C06", "C07"],
 mutant("c06-while-loop", ["C06"], (R, "    pub fn any() -> Self {\n        Self(vec![BoundSet::new(Bound::lower(), Bound::upper()).unwrap()])", "    pub fn any() -> Self {\n        let mut n = 0u64;\n        while n < MAX_SAFE_INTEGER {\n            n += 2;\n        }\n        Self(vec![BoundSet::new(Bound::lower(), Bound::upper()).unwrap()])"))
 mutant("c06-len-minus-one", ["C06"], (L, "                span: (input.len(), 0).into(),\n                kind: SemverErrorKind::MaxLengthError,", "                span: (input.len() - 300, 0).into(),\n                kind: SemverErrorKind::MaxLengthError,"))
 neutral("range-any-expect-free", ["C06"], (R, "        Self(vec![BoundSet::new(Bound::lower(), Bound::upper()).unwrap()])", "        Self(BoundSet::new(Bound::lower(), Bound::upper()).into_iter().collect())"))
+
+# ---- C05
+mutant("c05-pre-release-nullable", ["C05"], (L, "    preceded(opt(literal(\"-\")), separated(1.., identifier, literal(\".\")))", "    preceded(opt(literal(\"-\")), separated(0.., identifier, literal(\".\")))"))
+mutant("c05-no-eof", ["C05"], (L, "        extras,\n        space0,\n        eof,\n    )\n        .map(\n            |(_, _, (major, minor, patch), (pre_release, build), _, _)| Version {", "        extras,\n        space0,\n    )\n        .map(\n            |(_, _, (major, minor, patch), (pre_release, build), _)| Version {"))
+mutant("c05-ident-as-u8", ["C05"], (L, "|x: char| x.is_ascii_alphanumeric() || x == '-'", "|x: char| (x as u8).is_ascii_alphanumeric() || x == '-'"))
+mutant("c05-ident-allows-underscore", ["C05"], (L, "|x: char| x.is_ascii_alphanumeric() || x == '-'", "|x: char| x.is_ascii_alphanumeric() || x == '-' || x == '_'"))
+mutant("c05-swap-pre-build", ["C05"], (L, "                pre_release,\n                build,\n            },\n        )\n        .context(\"version\")", "                pre_release: build,\n                build: pre_release,\n            },\n        )\n        .context(\"version\")"))
+mutant("c05-no-length-guard", ["C05"], (L, "        if input.len() > MAX_LENGTH {", "        if input.len() > MAX_LENGTH && input.starts_with('v') {"))
+mutant("c05-minor-patch-swapped", ["C05"], (L, "        .map(|(major, _, minor, _, patch)| (major, minor, patch))", "        .map(|(major, _, minor, _, patch)| (major, patch, minor))"))
+mutant("c05-build-before-core-sep", ["C05"], (L, "    (number, literal(\".\"), number, literal(\".\"), number)", "    (number, literal(\".\"), number, alt((literal(\".\"), literal(\"-\"))), number)"))
+neutral("extras-alt-reordered", ["C05"], (L, "            Parser::map((pre_release, build), Extras::ReleaseAndBuild),\n            Parser::map(pre_release, Extras::Release),\n            Parser::map(build, Extras::Build),", "            Parser::map(build, Extras::Build),\n            Parser::map((pre_release, build), Extras::ReleaseAndBuild),\n            Parser::map(pre_release, Extras::Release),"))
+neutral("ident-class-matches", ["C05"], (L, "|x: char| x.is_ascii_alphanumeric() || x == '-'", "|x: char| matches!(x, '0'..='9' | 'a'..='z' | 'A'..='Z' | '-')"))
